@@ -102,8 +102,13 @@ def prog_finishing(rng, shape):
     return Program(steps, outs, gen.BASE_INPUT), gen.make_scripts(steps, outcome), shape
 
 
+def prog_parallel_hang_many(rng):
+    """One output fed by 25-40 never-ending steps: after the cancellation they fail one after the other."""
+    return prog_parallel_hang(rng, rng.choice([25, 30, 40]))
+
+
 NEVER_ENDING = [lambda rng: prog_chain_hang(rng, "obey"), lambda rng: prog_chain_hang(rng, "ignore"), lambda rng: prog_chain_hang(rng, "nohandler"),
-                lambda rng: prog_chain_hang(rng, "success"), prog_parallel_hang, prog_deploy_blocks, prog_foreach_hang, prog_late_result, prog_foreach_partial]
+                lambda rng: prog_chain_hang(rng, "success"), prog_parallel_hang, prog_deploy_blocks, prog_foreach_hang, prog_late_result, prog_foreach_partial, prog_parallel_hang_many]
 FINISHING = ["chain", "diamond", "fan_in", "wait_for", "deploy_expr", "enabled", "foreach", "foreach_after", "random_dag"]
 
 
@@ -206,6 +211,8 @@ def cancel_cases(check, rn, prefix, nfin, nnever, kmax_quick=14, sched_points=0)
             scripts = slow_close(scripts, only_never_ending=v == 2)
             name += "/slow-close" + ("-of-never-ending" if v == 2 else "")
         evs, _sem = certain_events(prog, scripts, inp)
+        if len(evs) > check.pick(10, 30):
+            evs = sorted(random.Random(derive_seed(check.seed, name, i)).sample(evs, check.pick(10, 30)))
         for (kind, src, nth) in evs:
             g = {"program": prog, "scripts": scripts, "input": inp, "shape": "%s/cancel@%s:%s#%d" % (name, kind, src, nth), "cancel": (kind, src, nth)}
             add(g, triggers=[{"kind": kind, "src": src, "nth": nth, "action": "cancel:0"}])
